@@ -134,6 +134,20 @@ func enter() {
 }
 func leave() { atomic.AddInt64(&inFlight, -1) }
 
+// threadStates lists the system call every thread of this process is blocked in (deadlock witness).
+func threadStates() []string {
+	var out []string
+	tasks, _ := os.ReadDir("/proc/self/task")
+	for _, t := range tasks {
+		b, _ := os.ReadFile("/proc/self/task/" + t.Name() + "/syscall")
+		f := strings.Fields(string(b))
+		if len(f) > 0 {
+			out = append(out, t.Name()+":syscall="+f[0])
+		}
+	}
+	return out
+}
+
 // runOps executes the actor's operation list on data directory dir.
 func runOps(c *core.Ctx, a *c16Actor, dir string, rounds int, census bool) []opResult {
 	var out []opResult
@@ -361,7 +375,33 @@ func runC16(c *core.Ctx) {
 	}
 	t0 := time.Now()
 	close(start)
+	// Hang monitor (both builds): it shares nothing with the actors (no counters, so the race
+	// detector gets no extra happens-before edges); it only samples the CPU time of this process.
+	// A round in which the process consumes no CPU for 45 s while calls are outstanding is one
+	// whose calls never return (the commands used here finish within milliseconds).
+	stopMon := make(chan struct{})
+	go func() {
+		lastCPU, lastChange := cpuSeconds(), time.Now()
+		for {
+			select {
+			case <-stopMon:
+				return
+			case <-time.After(time.Second):
+			}
+			if cpu := cpuSeconds(); cpu-lastCPU > 0.05 {
+				lastCPU, lastChange = cpu, time.Now()
+				continue
+			}
+			if time.Since(lastChange) > 45*time.Second {
+				c.Violation(fmt.Sprintf("concurrent library calls do not return: the round made no progress and the process used no CPU for 45 s (G=%d goroutines in flight)", G), id, map[string]any{"goroutines": G, "GOMAXPROCS": P, "threads": threadStates()})
+				c.Flush(filepath.Join(c.WorkDir, "result.json"))
+				c.Finish(filepath.Join(c.WorkDir, "result.json"))
+				os.Exit(0)
+			}
+		}
+	}()
 	wg.Wait()
+	close(stopMon)
 	concTime := time.Since(t0)
 	// ---- sequential pass ------------------------------------------------------------
 	censusOn = false
@@ -514,7 +554,7 @@ func init() {
 	core.Register(&core.Property{
 		ID:    "C16",
 		Level: "exploration",
-		Rule: "rounds = fresh worker processes (quick 16, thorough 48); round k uses G in {2,4,8,16,32} goroutines and GOMAXPROCS in {2,4,16}; every goroutine owns a generated tree (half with file and directory symlinks, half with 2 MiB CRLF files), keys, a chain directory and metadata files, and runs 1 (quick) / 3 (thorough) times the list LoadMetadata of layout and links (first library operation of the process: cold caches), RecordArtifacts with and without normalisation, Metablock Sign/Dump/Load/Verify, Envelope SetPayload/Sign/Dump/Load/Verify, InTotoRun (vhelper), InTotoRecordStart/Stop, InTotoMatchProducts, InTotoVerify (no inspections; layout with its own intermediate CA; the caller's list of additional intermediates is one read-only slice with spare capacity shared by all goroutines), InTotoVerifyWithDirectory (own run dir, globally unique inspection name), SubstituteParameters; then the same lists are executed sequentially on identical copies of the data and compared result by result. Even shards run the -race build with GORACE=halt_on_error=0 log_path=...: report blocks are counted from the log files and attributed by their in_toto frames; the hook handler there only yields. Odd shards run the normal build in census mode: hook events (record_reset / record_symlink) are logged with their owner, the evidence lists the distinct interleavings (windows of 12 events) and the maximum number of calls in flight. " +
+		Rule: "rounds = fresh worker processes (quick 16, thorough 48); round k uses G in {2,4,8,16,32} goroutines and GOMAXPROCS in {2,4,16}; every goroutine owns a generated tree (half with file and directory symlinks, half with 2 MiB CRLF files), keys, a chain directory and metadata files, and runs 1 (quick) / 3 (thorough) times the list LoadMetadata of layout and links (first library operation of the process: cold caches), RecordArtifacts with and without normalisation, Metablock Sign/Dump/Load/Verify, Envelope SetPayload/Sign/Dump/Load/Verify, InTotoRun (vhelper), InTotoRecordStart/Stop, InTotoMatchProducts, InTotoVerify (no inspections; layout with its own intermediate CA; the caller's list of additional intermediates is one read-only slice with spare capacity shared by all goroutines), InTotoVerifyWithDirectory (own run dir, globally unique inspection name), SubstituteParameters; then the same lists are executed sequentially on identical copies of the data and compared result by result. Even shards run the -race build with GORACE=halt_on_error=0 log_path=...: report blocks are counted from the log files and attributed by their in_toto frames; the hook handler there only yields. Odd shards run the normal build in census mode: hook events (record_reset / record_symlink) are logged with their owner, the evidence lists the distinct interleavings (windows of 12 events) and the maximum number of calls in flight. Hang monitor in both builds: a goroutine that shares nothing with the actors samples the CPU time of the process; a round whose process consumes no CPU for 45 s while calls are outstanding is reported (calls that never return) with the system call every thread is blocked in. " +
 			"non-trivial = a round with >=2 calls in flight; distinct = (mode, round, goroutine, position in its operation list) of the compared concurrent calls, plus (mode, G, GOMAXPROCS, interleaving hash) per round",
 		Assumptions: []string{"inspections of InTotoVerify without run directory use the process cwd and are excluded from 'independent data'; InTotoVerifyWithDirectory drops <inspection>.link into the shared cwd under globally unique names", "the race detector only sees races on executed paths; its silence is 'no report on these executions'"},
 		Workers: func(t string) int {
